@@ -415,7 +415,7 @@ def history_case(ctx, h, nops, tmp, model_in, expect):
 
 
 def history_pass(ctx):
-    n = 250 if ctx.quick() else 4000
+    n = 250 if ctx.quick() else 2000
     nops = 25 if ctx.quick() else 40
     tmp = tempfile.mkdtemp(prefix='verif_c13_')
     model_in, expect = [], []
